@@ -349,7 +349,7 @@ var pkgCatNameRE, pkgVerRE *regexp.Regexp
 
 func init () {
 //	pkgVerRE = regexp.MustCompile(`^(.*?)-(\d+(?:\.\d+)*[a-z]?\*?)(_\w+)?(?:-(r\d+))?$`)
-	pkgVerRE = regexp.MustCompile(`^(.*?)-(\d+(?:\.\d+)*[a-z]?)(_\w+)?(?:-(r\d+))?(\*?)$`)
+	pkgVerRE = regexp.MustCompile(`^(.*?)-(\d+(?:\.\d+)*[a-z]?)((?:_(?:alpha|beta|pre|rc|p)\d*)+)?(?:-(r\d+))?(\*?)$`)
 	pkgCatNameRE = regexp.MustCompile(`^(?:(\w[\w+.-]*)/)?(\w[\w+-]*)$`)
 }
 
